@@ -347,15 +347,15 @@ def run(ctx):
         return
     R1 = ctx.rule('R01.1', 'layout agreement: writer sections and reader offsets both equal the format table', floor=50)
     R2 = ctx.rule('R02.2', 'scan / index agreement between reader and writer (shared with C02)', floor=3)
-    readerrules.run(ctx, R1, R2)
-    layout.writer_rules(ctx, {'events': R1, 'widths': R1, 'index': R2, 'sizes': R1, 'state': R1})
-    formatrules.packing(ctx)
-    formatrules.delta_addressing(ctx)
-    r01_2(ctx, A)
-    r01_3(ctx, A)
-    r01_4(ctx, A)
-    r01_5(ctx, A)
+    ctx.step(readerrules.run, ctx, R1, R2)
+    ctx.step(layout.writer_rules, ctx, {'events': R1, 'widths': R1, 'index': R2, 'sizes': R1, 'state': R1})
+    ctx.step(formatrules.packing, ctx)
+    ctx.step(formatrules.delta_addressing, ctx)
+    ctx.step(r01_2, ctx, A)
+    ctx.step(r01_3, ctx, A)
+    ctx.step(r01_4, ctx, A)
+    ctx.step(r01_5, ctx, A)
     # node addresses are byte-counter readings (R01.3): they are right only if the counter counts exactly the accepted bytes (R07.1)
     import rules.C07 as C07
     from absint import Prover
-    C07.r07_1(ctx, A, Prover(lib))
+    ctx.step(C07.r07_1, ctx, A, Prover(lib))
